@@ -140,8 +140,20 @@ def model_compare(rep, spec, path, H, limits):
             rep.tie("level-header model disagrees with the level header", case, {"status": m.get("status"), "why": m.get("why")})
 
 
-def run_spec(ctx, rep, spec, model, only=None):
+def run_spec(ctx, rep, spec, model, only=None, previous=None):
     path = ctx.newdir("c02_")
+    if previous is not None:
+        # another plotfile (same number of fields) lived at this very path and was opened in this process before
+        from amr_kitchen import PlotfileCooker
+        plotgen.materialize(previous, path)
+        for kw in (dict(), dict(maxmins=True), dict(limit_level=0), dict(header_only=True)):
+            try:
+                with quiet():
+                    PlotfileCooker(path, **kw)
+            except Exception:
+                pass
+        shutil.rmtree(path)
+        rep.count("path-reused-after-rewrite")
     plotgen.materialize(spec, path)
     H = oracle.parse(path, maxmins=True, data=False)
     finest = H["finest"]
@@ -158,7 +170,7 @@ def run_spec(ctx, rep, spec, model, only=None):
         rep.case({"s": spec, "m": mode}, nontrivial=len(feats) >= 2)
         rep.count("mode:" + ",".join(k for k, v in sorted(mode.items()) if v not in (None, False)) or "mode:default")
         for b in check_open(ctx, rep, spec, path, H, mode):
-            rep.fail(b, {"spec": spec, "mode": mode})
+            rep.fail(b, {"spec": spec, "mode": mode, "previous": previous})
     if model and only is None:
         model_compare(rep, spec, path, H, [None] + list(range(finest + 2)))
         # is this header exactly a text of the Lean renderer with the theorem's hypothesis satisfied?  Then
@@ -176,6 +188,9 @@ def run(ctx, rep, model=True):
         spec = plotgen.random_spec(ctx.rng, nlev=[1, 2, 3, 4][i % 4] if i % 8 else 4, data="smallint", B=2,
                                    repeats=(i % 3 == 2), exact=(i % 5 != 4))
         run_spec(ctx, rep, spec, model)
+        if i % 6 == 5:
+            other = plotgen.random_spec(ctx.rng, ndims=spec["ndims"], nlev=[2, 3, 1][i % 3], nf=len(spec["fields"]), data="smallint", B=2)
+            run_spec(ctx, rep, other, False, previous=spec)
         if len(rep.violations) >= 10:
             return
     # byte offsets at and above 2**31 (binary files larger than 2 GiB; written as sparse holes)
@@ -194,4 +209,4 @@ def replay(ctx, rep, obj, model=True):
     if c.get("model"):
         run_spec(ctx, rep, c["spec"], model)
     else:
-        run_spec(ctx, rep, c["spec"], model, only=c["mode"])
+        run_spec(ctx, rep, c["spec"], model, only=c["mode"], previous=c.get("previous"))
